@@ -163,6 +163,50 @@ def check_pipeline(rep, funcs, mapname):
     return cc
 
 
+def check_input_flow(rep):
+    """Every module with a compact() looks at the caller's string only through util.clean():
+    otherwise a look-alike spelling is not equivalent to its ASCII spelling."""
+    from ..strabs.model import Program
+    from ..rawflow import raw_uses, flatten
+    from ..common import rel
+    prog = Program()
+    for mn in prog.number_modules():
+        m = prog.mods[mn]
+        rc = prog.resolve_name(m, 'compact')
+        rv = prog.resolve_name(m, 'validate')
+        if not rc or rc[0] != 'func' or not rv or rv[0] != 'func':
+            continue
+        vfn = prog.mods[rv[1]].funcs[rv[2]]
+        file = rel(prog.mods[rv[1]].path)
+        todo = [(u, chain) for u, chain in flatten(raw_uses(prog, rv[1], vfn))]
+        seen = set()
+        while todo:
+            u, chain = todo.pop()
+            where = ' -> '.join('%s.%s' % (a.replace('stdnum.', ''), b) for a, b in chain)
+            if u.kind == 'compact':
+                if u.target in seen:
+                    continue
+                seen.add(u.target)
+                cfn = prog.mods[u.target[0]].funcs.get(u.target[1])
+                inner = flatten(raw_uses(prog, u.target[0], cfn)) if cfn is not None else []
+                if not inner:
+                    rep.fail('TAB.input-through-clean', rel(prog.mods[u.target[0]].path), 'compact', 'compact()', getattr(cfn, 'lineno', 0),
+                             'compact() does not read its argument through util.clean()')
+                todo.extend((x, chain + [u.target] + c) for x, c in inner)
+            elif u.kind == 'clean':
+                rep.ok('TAB.input-through-clean', '%s:%d %s' % (file, u.stmt.lineno, mn), (where + ' -> ' if where else '') + 'clean()')
+            elif u.kind in ('unused',):
+                continue
+            elif u.kind == 'dynamic':
+                rep.undecide('TAB.input-through-clean', '%s:%d' % (file, u.stmt.lineno), u.detail)
+            else:
+                f = chain[-1] if chain else (rv[1], 'validate')
+                rep.fail('TAB.input-through-clean', rel(prog.mods[f[0]].path), f[1], src(u.stmt).split(' : ')[0][:140], u.stmt.lineno,
+                         'the caller\'s string is %s before util.clean() has replaced look-alike characters%s: a number typed with look-alike '
+                         'dashes, spaces or digits is treated differently from its ASCII spelling'
+                         % (u.detail or u.kind, (' (reached through ' + where + ')') if where else ''))
+
+
 def check(tier):
     rep = Report('C14', tier, level='proof',
                  rule_text='every entry of the look-alike table literal in stdnum/util.py is checked against the Unicode '
@@ -223,6 +267,7 @@ def check(tier):
             bad += 1
     rep.check(bad == 0, 'TAB.all-codepoints', FILE, mapname, 'x -> table.get(x, x) over U+0000..U+10FFFF', 0,
               '%d code points violate the value-preservation rules' % bad, what='1114112 code points, %d changed' % changed)
+    check_input_flow(rep)
     rep.extra['code_points_tabulated'] = 0x110000
     rep.extra['code_points_changed'] = changed
     rep.not_decided = ['that every module calls clean() before looking at the number (C03)']
